@@ -517,7 +517,43 @@ def r13_container_capabilities(ctx, rule="C11.R13"):
             isinstance(a, ast.Assign) and any(isinstance(t, ast.Name) and t.id == X for t in a.targets) and unparse(a.value) == f"list({X})" for a in b.body) for b in before)
         guarded = any(pol and canon(unparse(t)) == canon(f"isinstance({X}, list)") for t, pol in all_guards(st, fn))
         ctx.ob(rule, EF, "Impute.filter", st, "the dense context is grown in place only once it is known to be a list", norm or guarded)
-    ctx.floor(rule, "capability-dependent container operations in Mutable/Impute", n, 2)
+    ctx.floor(rule, "capability-dependent container operations in Mutable/Impute", n, 1)
+    mutable_private_containers(ctx, rule)
+
+
+def mutable_private_containers(ctx, rule):
+    """Scale and Impute write into the contexts Mutable hands them: every context Mutable yields must be a container made in this read
+    (the source's -- or a cache's -- own row must never be reached by those writes)."""
+    from ..cfg import CFG, forward
+    from ..util import node_ast_for_effects
+    fn = ctx.fn(EF, "Mutable.filter")
+    FRESH = ("list(", "dict(")
+    m = 0
+    for lp in [x for x in ast.walk(fn) if isinstance(x, ast.For)]:
+        stores = [st for st in ast.walk(lp) if isinstance(st, ast.Assign) and any(isinstance(t, ast.Subscript) and const_str(t.slice) == "context" for t in st.targets)]
+        if not stores:
+            continue   # scalar contexts: nothing to copy
+        NEW = unparse(stores[0].targets[0].value)
+        g = CFG(fn, body=lp.body)
+
+        def fresh_store(node):
+            a = node_ast_for_effects(node)
+            if not (isinstance(a, ast.Assign) and any(isinstance(t, ast.Subscript) and const_str(t.slice) == "context" and unparse(t.value) == NEW for t in a.targets)):
+                return False
+            v = a.value
+            vals = [v.body, v.orelse] if isinstance(v, ast.IfExp) else [v]
+            return all((isinstance(x, ast.Call) and isinstance(x.func, ast.Attribute) and x.func.attr == "copy" and not x.args and not (isinstance(x.func.value, ast.Name) and x.func.value.id == "copy"))
+                       or (isinstance(x, ast.Call) and call_name(x) in ("list", "dict")) for x in vals)
+        IN = forward(g, False, lambda node, st, label: st if label in ("exc", "abandon") else (True if fresh_store(node) else st), lambda a, b: a and b)
+        for nd in g.nodes:
+            a = node_ast_for_effects(nd)
+            if a is None or nd.id not in IN:
+                continue
+            for y in [y for y in ast.walk(a) if isinstance(y, ast.Yield) and y.value is not None and unparse(y.value) == NEW]:
+                m += 1
+                ctx.ob(rule, EF, "Mutable.filter", y, "the yielded interaction's context was re-bound on every path to a container made here (`.copy()` of the container, list(...) or dict(...)) -- "
+                       "not to the source's own object and not to a copy.copy() that shares the storage of a slotted row", bool(IN[nd.id]), stmt=f"yield {NEW}: private context")
+    ctx.floor(rule, "yields of re-bound contexts in Mutable.filter", m, 3)
 
 
 def write_through(ctx, rule):
@@ -572,9 +608,19 @@ def write_through(ctx, rule):
             ok = g.exit_return in IN2 and bool(IN2[g.exit_return])
             ctx.ob(rule, RW, f"{c.name}.{name}", st, f"self.{attr} (memoised by {name}) is dropped on every path of __setitem__", ok)
     ctx.floor(rule, "mutable row classes examined", n, 1)
+    # reads: an absent position reads as 0, a STORED value reads as itself -- the default comes from `.get(key, 0)` / a membership test, never from truthiness
+    sd = ctx.model.cls(RW, "SparseDense")
+    for name in ("__getitem__", "__iter__"):
+        f_ = sd.methods[name]
+        by_truth = [b for b in ast.walk(f_) if isinstance(b, ast.BoolOp) and isinstance(b.op, ast.Or) and any("self._values" in unparse(v) for v in b.values)]
+        ctx.ob(rule, RW, f"SparseDense.{name}", (by_truth or [f_])[0], "a stored value (None, 0.0, '') is returned as stored: the default for absent positions is not chosen by truthiness (`x or 0`)", not by_truth,
+               stmt=f"SparseDense.{name} default")
 
 
 CONTROLS = [
+    ("SparseDense reads a stored None as 0", "coba/pipes/rows.py", M.replace_expr("SparseDense.__getitem__", "self._values.get(key, 0)", "self._values.get(key) or 0"), "C11.R11"),
+    ("Mutable shallow-copies slotted rows", EF, M.replace_expr("Mutable.filter", "context.copy()", "__import__('copy').copy(context)"), "C11.R13"),
+    ("Mutable passes mutable containers through", EF, M.replace_stmt("Mutable.filter", M.text_has("new['context'] = list(new['context'])"), "if not isinstance(new['context'], list): new['context'] = list(new['context'])"), "C11.R13"),
     ("stdev of a single value", EF, M.replace_expr("Scale._scale_value", "stdev(values) if len(values) > 1 else 0", "stdev(values)"), "C11.R9"),
     ("Impute grows whatever dense container it is given", EF, M.delete_stmt("Impute.filter", M.text_has("if not isinstance(context, list)")), "C11.R13"),
     ("Scale takes a missing first value for a non-numeric feature", EF, M.replace_expr("Scale.filter", "isinstance(v, (int, float)) or v is None", "isinstance(v, (int, float))", nth=0), "C11.R12"),
